@@ -757,6 +757,10 @@ class OpsMixin:
             if mask is not None and mask < 0 and _pow2_exp(-mask) is not None:
                 return self.wrap_int(other - other % (-mask))  # x & -(2^k) clears the k low bits
             raise Unsupported(f"& with non-contiguous or symbolic mask in math-int mode (line {self.lineno})")
+        hook = self.c.globals.get("op." + op) if op in ("BitOr", "BitXor", "BitAnd") else None
+        if hook is not None and ca is None and cb is None:
+            # the contract keeps this bit operation abstract (an uninterpreted function used by code and spec alike)
+            return hook(self, a, b)
         if op in ("BitOr", "BitXor") and not (cb is not None and _pow2_exp(cb) is not None) and not (ca is not None and _pow2_exp(ca) is not None):
             # x | y == x ^ y == x + y when the operands occupy disjoint bit ranges: find k with
             # (hi mod 2^k == 0 and 0 <= lo < 2^k) VALID under the path condition (checked by the solver)
